@@ -213,12 +213,15 @@ static void run_bigint(long &k) {
 		Rng r = case_rng(kk, 1), lib = case_rng(kk, 2); tl_rng = &lib; CaseStat cs; BS.seqs++;
 		BWorld P(false), S(true); BModel M;
 		std::vector<BOp> ops; std::vector<std::string> op, os, om;
+		bool diverged = false;   // after the first difference the worlds no longer hold equal operands: stop comparing
 		auto run = [&](const BOp &o) {
+			if (diverged) return;
 			if (o.d != 3 && o.code >= B_SET && o.code <= B_MOD && o.code != B_ADDUI && o.code != B_SUBUI && o.code != B_MULUI && o.s1 == 3) BS.mixed++;
 			std::string a = P.apply(o), b = S.apply(o), m = M.apply(o);
 			ops.push_back(o); op.push_back(a); os.push_back(b); om.push_back(m); BS.ops[o.code]++; cs.evals++; cs.distinct++;
 			if (!m.empty() && m[0] == '-') BS.negative_results++;
 			if (a != b || a != m) {
+				diverged = true;
 				std::string which = a != b ? (a == m ? "secure-differs-from-plain-and-model" : (b == m ? "plain-differs-from-secure-and-model" : "all-three-differ")) : "both-differ-from-model";
 				std::vector<std::string> hist; for (size_t i = ops.size() > 6 ? ops.size() - 6 : 0; i < ops.size(); i++) hist.push_back(std::string(b_name[ops[i].code]) + " d=" + std::to_string(ops[i].d) + " s=" + std::to_string(ops[i].s1) + "," + std::to_string(ops[i].s2) + "," + std::to_string(ops[i].s3) + " ui=" + std::to_string(ops[i].ui) + " -> " + shorten(om[i], 60));
 				viol(std::string("C09/bigint/") + b_name[o.code] + "/" + which, "plain / secure / model results differ", J().kv("op", b_name[o.code]).kv("plain", shorten(a, 400)).kv("secure", shorten(b, 400)).kv("model", shorten(m, 400)).kv("step", (long long)ops.size()).arr("last_ops", hist));
@@ -228,7 +231,7 @@ static void run_bigint(long &k) {
 		for (int reg = 0; reg < 4; reg++) { run(BOp{B_SETUI, reg, 0, 0, 0, rnd_ui(r), ""}); int limbs = (int)r.below(11); for (int i = 0; i < limbs; i++) { run(BOp{B_MUL2EXP, reg, 0, 0, 0, 64, ""}); run(BOp{B_ADDUI, reg, 0, 0, 0, r.next(), ""}); } }
 		if (c % 4 == 1) { run(BOp{B_SETUI, 1, 0, 0, 0, 0, ""}); run(BOp{B_SIZE2, 1, 0, 0, 0, 0, ""}); run(BOp{B_GETUI, 1, 0, 0, 0, 0, ""}); run(BOp{B_ADD, 0, 1, 0, 0, 0, ""}); run(BOp{B_MUL, 2, 1, 0, 0, 0, ""}); }   // zero paths
 		if (c % 4 == 2) { run(BOp{B_SETUI, 2, 0, 0, 0, 2, ""}); run(BOp{B_PRIME, 2, 0, 0, 0, 0, ""}); run(BOp{B_SETUI, 2, 0, 0, 0, 1, ""}); run(BOp{B_PRIME, 2, 0, 0, 0, 0, ""}); Z pz; harness_prime(pz, 64 + r.below(400), r); char *s = mpz_get_str(nullptr, 16, pz); run(BOp{B_SETSTR3, 3, 16, 0, 0, 0, s}); free(s); run(BOp{B_SET, 2, 3, 0, 0, 0, ""}); run(BOp{B_PRIME, 2, 0, 0, 0, 0, ""}); run(BOp{B_PRIME, 3, 0, 0, 0, 0, ""}); }
-		for (int i = 0; i < nops; i++) run(gen_op(M, r));
+		for (int i = 0; i < nops && !diverged; i++) run(gen_op(M, r));
 		// documented restrictions of the secure back end are refusals, not crashes
 		{ TMCG_Bigint s(true, true), pl(false, false); pl = 5UL; s = 7UL; int refused = 0;
 		  refused += guard([&] { s /= 3UL; }) != X_NONE; refused += guard([&] { s.div2exp(1); }) != X_NONE; refused += guard([&] { s.ui_pow_ui(2, 3); }) != X_NONE;
